@@ -31,7 +31,19 @@ type awsNodeSpec struct {
 	PID  string `json:"pid"`
 }
 
+// awsPreOp: an operation run on the SAME provider before the recorded one (the recorded operation starts from a fresh
+// Refresh, as every scan does): provider-side caches must not leak from one scan into the next.
+type awsPreOp struct {
+	Kind      string        `json:"kind"` // increase | delete | set_instances (the cloud changes behind escalator's back)
+	D         int64         `json:"d,omitempty"`
+	Nodes     []awsNodeSpec `json:"nodes,omitempty"`
+	Instances []SimInst     `json:"instances,omitempty"`
+	Desired   *int64        `json:"desired,omitempty"`
+	Oracle    *AwsOracle    `json:"oracle,omitempty"`
+}
+
 type awsSpec struct {
+	Pre    []awsPreOp    `json:"pre,omitempty"`
 	Kind   string        `json:"kind"` // increase | delete | getinstance
 	ASG    SimASG        `json:"asg"`
 	Tries  int           `json:"tries"`
@@ -50,6 +62,7 @@ func groupConfig(g SimASG, o AwsOracle) cloudprovider.NodeGroupConfig {
 }
 
 type awsObs struct {
+	Eff     *awsSpec // the cloud group and the clean-up counter as they are when the recorded operation starts (after a prologue)
 	Calls   []AwsCall
 	Class   int
 	Tries   int
@@ -68,8 +81,61 @@ func runAwsSpec(s awsSpec) awsObs {
 	ngi, _ := prov.GetNodeGroup(s.ASG.Name)
 	ng := ngi.(*awsprov.NodeGroup)
 	ng.VerifSetTerminateTries(s.Tries)
-	sim.record = true
 	obs := awsObs{}
+	if len(s.Pre) > 0 {
+		toNodes := func(l []awsNodeSpec) []*v1.Node {
+			nodes := []*v1.Node{}
+			for _, n := range l {
+				nodes = append(nodes, &v1.Node{ObjectMeta: metav1.ObjectMeta{Name: n.Name}, Spec: v1.NodeSpec{ProviderID: n.PID}})
+			}
+			return nodes
+		}
+		for _, op := range s.Pre {
+			func() {
+				defer func() { recover() }() // a prologue step that ends the process is not what these cases are about
+				if err := prov.Refresh(); err != nil {
+					return
+				}
+				if op.Oracle != nil {
+					po := *op.Oracle
+					sim.mu.Lock()
+					sim.oracle[s.ASG.Name] = &po
+					sim.ResetCounters()
+					sim.mu.Unlock()
+				}
+				switch op.Kind {
+				case "increase":
+					_ = ng.IncreaseSize(op.D)
+				case "delete":
+					_ = ng.DeleteNodes(toNodes(op.Nodes)...)
+				case "set_instances":
+					sim.mu.Lock()
+					g := sim.groups[s.ASG.Name]
+					g.Instances = append([]SimInst(nil), op.Instances...)
+					if op.Desired != nil {
+						g.Desired = *op.Desired
+					}
+					sim.mu.Unlock()
+				}
+			}()
+		}
+		sim.mu.Lock()
+		sim.oracle[s.ASG.Name] = &o
+		sim.ResetCounters()
+		sim.journal = nil
+		sim.mu.Unlock()
+		if err := prov.Refresh(); err != nil {
+			panic(err)
+		}
+		eff := s
+		sim.mu.Lock()
+		eff.ASG = sim.snapshotGroups()[0]
+		sim.mu.Unlock()
+		eff.ASG.Template, eff.ASG.Lifecycle, eff.ASG.NTypes = s.ASG.Template, s.ASG.Lifecycle, s.ASG.NTypes
+		eff.Tries = ng.VerifTerminateTries()
+		obs.Eff = &eff
+	}
+	sim.record = true
 	func() {
 		defer func() {
 			if r := recover(); r != nil {
@@ -273,7 +339,56 @@ func genAwsSpecs(prop, tier string, rng *rand.Rand) []awsSpec {
 			specs = append(specs, awsSpec{Kind: "increase", ASG: g, D: 3, Oracle: o})
 		}
 	}
+	if prop == "C17" || prop == "C18" || thorough {
+		// sequences on ONE provider: what an earlier scale-up (or clean-up) left behind must not shape the next request
+		fleet := base
+		fleet.Template = "lt-1"
+		fleet.Max = 500
+		for si, pair := range [][2]int64{{2, 5}, {5, 2}, {3, 1}, {1, 21}, {4, 4}} {
+			for li, lc := range []string{"", "spot"} {
+				g := fleet
+				g.Lifecycle = lc
+				g.NTypes = (si + li) % 3
+				pre := okOrc
+				pre.FleetInstances = [][]string{mkIDs("e", int(pair[0]))}
+				o := okOrc
+				o.FleetInstances = splitGroups(mkIDs("f", int(pair[1])), 1+si%2)
+				specs = append(specs, awsSpec{Kind: "increase", ASG: g, D: pair[1], Oracle: o,
+					Pre: []awsPreOp{{Kind: "increase", D: pair[0], Oracle: &pre}}})
+				// the earlier scale-up failed and was cleaned up: the counter carries over, the request does not
+				bad := pre
+				bad.ReadyAt = 0
+				specs = append(specs, awsSpec{Kind: "increase", ASG: g, D: pair[1], Oracle: o,
+					Pre: []awsPreOp{{Kind: "increase", D: pair[0], Oracle: &bad}, {Kind: "increase", D: pair[0], Oracle: &bad}}})
+			}
+		}
+		// set-desired mode after an earlier increase and an out-of-band change of the desired capacity
+		for _, d := range []int64{1, 3, 6} {
+			nine := int64(9)
+			specs = append(specs, awsSpec{Kind: "increase", ASG: base, D: d, Oracle: okOrc,
+				Pre: []awsPreOp{{Kind: "increase", D: 2}, {Kind: "set_instances", Instances: members(5), Desired: &nine}}})
+		}
+	}
 	if prop == "C19A" || thorough {
+		// membership changes between two removals on ONE provider while the instance count stays the same
+		{
+			g := SimASG{Name: "asg-a", Min: 0, Max: 20, Desired: 4, Instances: members(4)}
+			node := func(i SimInst) awsNodeSpec { return awsNodeSpec{"n-" + i.ID, pidOf(i)} }
+			fresh := SimInst{AZ: "az1", ID: "i-9"}
+			swapped := append(append([]SimInst{}, g.Instances[1:]...), fresh) // i-0 left, i-9 joined: four again
+			four := int64(4)
+			prologue := []awsPreOp{{Kind: "delete", Nodes: []awsNodeSpec{node(g.Instances[0])}}, {Kind: "set_instances", Instances: swapped, Desired: &four}}
+			for _, l := range [][]awsNodeSpec{{node(fresh)}, {node(g.Instances[0])}, {node(g.Instances[1]), node(fresh)}, {node(g.Instances[1]), node(g.Instances[0]), node(g.Instances[2])}} {
+				specs = append(specs, awsSpec{Kind: "delete", ASG: g, Oracle: okOrc, Nodes: l, Pre: prologue})
+			}
+			// the same without an earlier removal (nothing cached yet), and after a plain scale-down / scale-up cycle
+			specs = append(specs, awsSpec{Kind: "delete", ASG: g, Oracle: okOrc, Nodes: []awsNodeSpec{node(fresh)},
+				Pre: []awsPreOp{{Kind: "set_instances", Instances: swapped, Desired: &four}}})
+			three := int64(3)
+			specs = append(specs, awsSpec{Kind: "delete", ASG: g, Oracle: okOrc, Nodes: []awsNodeSpec{node(fresh), node(g.Instances[2])},
+				Pre: []awsPreOp{{Kind: "delete", Nodes: []awsNodeSpec{node(g.Instances[3])}}, {Kind: "set_instances", Instances: g.Instances[:3], Desired: &three},
+					{Kind: "increase", D: 1}, {Kind: "set_instances", Instances: append(append([]SimInst{}, g.Instances[:3]...), fresh), Desired: &four}}})
+		}
 		// DeleteNodes: ASG states x node lists x failing terminate
 		for _, m := range []int{1, 3, 6} {
 			for _, min := range []int64{0, 1, 2, int64(m)} {
@@ -372,7 +487,11 @@ func awsEngine(prop, tier string, rng *rand.Rand, replay []json.RawMessage) (*En
 		case "getinstance":
 			op = fmt.Sprintf("(OpGetInstance %s %s)", cbytes(s.PID), cbool(s.OK))
 		}
-		coq := fmt.Sprintf("(Build_aws_case %s %s %s %s %s %s %s)", in.casg(s.ASG, s.Tries), op, in.caorc(s.Oracle),
+		view := s
+		if o.Eff != nil {
+			view = *o.Eff
+		}
+		coq := fmt.Sprintf("(Build_aws_case %s %s %s %s %s %s %s)", in.casg(view.ASG, view.Tries), op, in.caorc(s.Oracle),
 			in.cacalls(o.Calls), cz(int64(o.Class)), cz(int64(o.Tries)), cz(o.Desired))
 		sp, _ := json.Marshal(s)
 		key := fmt.Sprintf("%x/%d", hashJSON(o.Calls), o.Class)
